@@ -864,8 +864,9 @@ where
         match inp.memos.entry(key) {
             hashbrown::hash_map::Entry::Occupied(o) => {
                 if let Some(err) = o.get() {
+                    // Replay the failure where it originally happened, not where the parser started
                     let err = err.clone();
-                    inp.add_alt_err(&before.inner /*&err.pos*/, err.err);
+                    inp.add_alt_err(&err.pos, err.err);
                 } else {
                     let err_span = inp.span_since(&before);
                     // TODO: Is this an appropriate way to handle infinite recursion?
@@ -878,13 +879,21 @@ where
             }
         }
 
+        // Shelter the alt of earlier alternatives so that the memo entry holds this parser's own failure only, and so
+        // that it is not lost: it is put back (with this parser's alt applied on top of it) whatever the outcome
+        let old_alt = inp.errors.alt.take();
+
         let res = self.parser.go::<M>(inp);
 
+        let new_alt = inp.take_alt();
         if res.is_err() {
-            let alt = inp.take_alt();
-            inp.memos.insert(key, alt);
+            inp.memos.insert(key, new_alt.clone());
         } else {
             inp.memos.remove(&key);
+        }
+        inp.errors.alt = old_alt;
+        if let Some(new_alt) = new_alt {
+            inp.add_alt_err(&new_alt.pos, new_alt.err);
         }
 
         res
